@@ -244,11 +244,14 @@ compare (int si, const char *pw, size_t pl, const char *replay)
   char sig[200], mine[CRYPT_OUTPUT_SIZE], refo[CRYPT_OUTPUT_SIZE + 64];
   char *h = 0;
   /* the published value must come out whatever the object held before (alternating garbage patterns and zero) */
-  static unsigned flip;
-  memset (d1, (++flip % 3) == 0 ? 0 : (flip % 3) == 1 ? 0xA5 : 0x4E, sizeof *d1);
+  /* pattern and entry errno are functions of the case, so that a replay of one case meets the same conditions */
+  unsigned flip = (unsigned) (vh_hash_str (replay, 5) % 12);
+  static const int entry_errno[4] = { 0, ERANGE, EINVAL, ENOMEM };
+  memset (d1, (flip % 3) == 0 ? 0 : (flip % 3) == 1 ? 0xA5 : 0x4E, sizeof *d1);
   int k = VH_TRY (0);
   if (k == 0)
     {
+      errno = entry_errno[flip / 3];
       h = crypt_rn (pw, S->s, d1, sizeof *d1);
       VH_END ();
     }
